@@ -14,8 +14,9 @@ type Locker interface {
 }
 
 type Mutex struct {
-	held bool
-	vc   csched.VC
+	held     bool
+	vc       csched.VC
+	Releases int // number of Unlocks so far (lets timed waits skip stuttering re-acquisitions)
 }
 
 func (m *Mutex) Lock() {
@@ -50,6 +51,7 @@ func (m *Mutex) Unlock() {
 		return // aborting: no-op
 	}
 	m.held = false
+	m.Releases++
 }
 
 // Held is for harness oracles.
@@ -168,6 +170,38 @@ func (c *Cond) Broadcast() {
 		csched.Tick()
 	}
 	c.waiters = nil
+}
+
+// WaitOrTimeout models a timed wait on the logical clock: the lock is released
+// and re-acquired; the waiter resumes when it was signalled or (time-out) at
+// any point after some other thread released the lock in between (stutter-free
+// subset of "the timer may fire at any time").
+func (c *Cond) WaitOrTimeout() {
+	s := csched.S
+	if !csched.Active() {
+		return
+	}
+	s.Point(nil, "Cond.WaitOrTimeout")
+	m, ok := c.L.(*Mutex)
+	if !ok {
+		c.Wait()
+		return
+	}
+	w := &waiter{}
+	c.waiters = append(c.waiters, w)
+	m.Unlock()
+	mine := m.Releases
+	s.Point(func() bool { return (w.signalled || m.Releases > mine) && !m.held }, "Cond.WaitOrTimeout(parked)")
+	// leave the waiter list if we timed out
+	for i, x := range c.waiters {
+		if x == w {
+			c.waiters = append(c.waiters[:i:i], c.waiters[i+1:]...)
+			break
+		}
+	}
+	csched.Acquire(w.vc)
+	csched.Acquire(m.vc)
+	m.held = true
 }
 
 // NumWaiters is for harness oracles.
